@@ -308,7 +308,7 @@ class ColAttrs:
 
 class StylesFam:
     PROPS = ["C30"]
-    ASSUMPTIONS = ["styles from an 18-style pool in which every style has neighbours differing in exactly one attribute (incl. a custom format equal to built-in 14, 'General' vs 'general', Some(Alignment::default()) vs None, quote prefix)",
+    ASSUMPTIONS = ["styles from a 21-style pool in which every style has neighbours differing in exactly one attribute (incl. a custom format equal to built-in 14, 'General' vs 'general', Some(Alignment::default()) vs None, quote prefix)",
                    "targets: two cells, a row, a column; probes: an untouched cell of the styled row, of the styled column, and their crossing (row over column; a row given the default style counts as unstyled)",
                    "read back through get_style_for_cell / get_row_style (effective) / get_column_style, directly and after to_bytes/from_bytes at the last step"]
 
